@@ -384,3 +384,61 @@ func HC09_Listener() {
 	x.inv()
 	vReach("end")
 }
+
+func init() { vRegister("HC09_BitPool", HC09_BitPool) }
+
+// HC09_BitPool: one-step lemmas on the lock-bit pool from an arbitrary
+// well-formed state (up to 6 bits handed out so far, any free-list shape).
+func HC09_BitPool() {
+	const N = 6
+	var p bitPool
+	length := vChoice("length", N+1)
+	p.length = uint16(length)
+	avail := 0
+	if length > 0 {
+		avail = vChoice("available", length+1)
+	}
+	var free [N]bool
+	var chain [N]int
+	for k := 0; k < avail; k++ {
+		c := vChoice("link", length)
+		vAssume(!free[c])
+		free[c] = true
+		chain[k] = c
+	}
+	for i := 0; i < length; i++ {
+		p.bits[i] = uint8(i)
+	}
+	if avail > 0 {
+		p.next = uint8(chain[0])
+		for k := 0; k < avail; k++ {
+			nx := vU8("tail")
+			if k+1 < avail {
+				nx = uint8(chain[k+1])
+			}
+			p.bits[chain[k]] = nx
+		}
+	} else {
+		p.next = vU8("next0")
+	}
+	p.available = uint16(avail)
+	// Get: a bit that is not held, below the limit
+	b := p.Get()
+	if int(b) < length {
+		vAssert(free[b], "a lock bit handed out is not held by another query")
+		free[b] = false
+	} else {
+		vAssert(int(b) == length && length < MaskTotalBits, "fresh lock bits are handed out densely")
+	}
+	// a second Get differs from the first
+	b2 := p.Get()
+	vAssert(b2 != b, "two open queries never share a lock bit")
+	if int(b2) < length {
+		vAssert(free[b2], "a lock bit handed out is not held by another query")
+	}
+	// Recycle then Get returns the same bit (LIFO), and the other one stays distinct
+	p.Recycle(b)
+	b3 := p.Get()
+	vAssert(b3 == b && b3 != b2, "a released lock bit is re-used first and never collides with a held one")
+	vReach("end")
+}
